@@ -95,11 +95,11 @@ def lean_sources_of(modules):
     return {m: p for m, p in seen.items() if p}
 
 
-def audit(prop_module, theorems):
+def audit(prop_module, theorems, extra_modules=()):
     """(ok, report).  Forbidden-token grep over every PoxModel source the property depends on, then `#print axioms`
     for each property theorem: allowed axioms are propext / Classical.choice / Quot.sound only."""
     report = {"forbidden_hits": [], "axioms": {}, "missing": []}
-    srcs = lean_sources_of([prop_module])
+    srcs = lean_sources_of([prop_module] + list(extra_modules))
     for m, path in sorted(srcs.items()):
         code = strip_lean_comments(open(path).read())
         for mo in FORBIDDEN.finditer(code):
@@ -108,7 +108,7 @@ def audit(prop_module, theorems):
     auditdir = os.path.join(LEAN, ".lake", "audit")
     os.makedirs(auditdir, exist_ok=True)
     f = os.path.join(auditdir, prop_module.split(".")[-1] + "_%d.lean" % os.getpid())
-    open(f, "w").write("import %s\n" % prop_module + "".join("#print axioms %s\n" % t for t in theorems))
+    open(f, "w").write("".join("import %s\n" % m for m in [prop_module] + list(extra_modules)) + "".join("#print axioms %s\n" % t for t in theorems))
     try:
         p = subprocess.run(["lake", "env", "lean", f], cwd=LEAN, stdout=subprocess.PIPE, stderr=subprocess.STDOUT,
                            text=True, timeout=900)
@@ -238,6 +238,7 @@ class Check:
     id = None
     title = ""
     prop_module = None            # e.g. "PoxModel.Properties.C02"
+    extra_modules = ()            # further property modules whose theorems are audited with this check
     lean_targets = ()             # extra lake targets (the driver exe)
     driver = None                 # exe name
     theorems = ()                 # fully qualified names audited with #print axioms
@@ -353,7 +354,7 @@ def run_check(chk, argv):
     build_ok, build_log = True, ""
     if not args.no_build:
         try:
-            build_ok, build_log = lake_build([chk.prop_module] + list(chk.lean_targets))
+            build_ok, build_log = lake_build([chk.prop_module] + list(chk.extra_modules) + list(chk.lean_targets))
         except subprocess.TimeoutExpired:
             log("lake build timed out"); return 2
         if not build_ok:
@@ -363,7 +364,7 @@ def run_check(chk, argv):
     audit_report = {}
     discharged = 0
     if build_ok:
-        ok, audit_report = audit(chk.prop_module, list(chk.theorems))
+        ok, audit_report = audit(chk.prop_module, list(chk.theorems), chk.extra_modules)
         discharged = sum(1 for t in chk.theorems if t in audit_report["axioms"] and t not in audit_report["bad_axioms"])
         if audit_report["forbidden_hits"]:
             discharged = 0
@@ -374,7 +375,7 @@ def run_check(chk, argv):
     if build_ok and tier == "thorough" and not args.no_build:
         try:
             with _LakeLock():
-                p = subprocess.run(["lake", "env", "leanchecker", chk.prop_module], cwd=LEAN, stdout=subprocess.PIPE,
+                p = subprocess.run(["lake", "env", "leanchecker", chk.prop_module] + list(chk.extra_modules), cwd=LEAN, stdout=subprocess.PIPE,
                                    stderr=subprocess.STDOUT, text=True, timeout=1500)
             leancheck = (p.returncode == 0)
             if not leancheck:
